@@ -98,6 +98,7 @@ type RWMutex struct {
 	real    sync.RWMutex
 	epoch   uint32
 	writer  bool
+	pending bool // a writer has announced itself and waits for the readers inside to leave
 	readers int
 	quiet   bool
 	obj     *vsched.Obj
@@ -107,6 +108,7 @@ func (m *RWMutex) sync() {
 	if ep := vsched.Epoch(); m.epoch != ep {
 		m.epoch = ep
 		m.writer = false
+		m.pending = false
 		m.readers = 0
 		m.obj = vsched.ObjAt(uintptr(unsafe.Pointer(m)), "rwmutex")
 	}
@@ -125,13 +127,36 @@ func (m *RWMutex) Lock() {
 	if m.quiet {
 		return
 	}
+	// Like sync.RWMutex: a writer first announces itself (one atomic step that also observes the
+	// active readers); from then on new readers block, and the writer waits for the readers that
+	// were already inside. Without this a recursive read lock could never deadlock.
+	waited := false
+	pc := vsched.CallerPC(2)
 	p := &vsched.Pend{Kind: vsched.KLock, Obj: m.obj, Variants: func() int {
-		if m.writer || m.readers > 0 {
+		if m.writer || m.pending {
 			return 0
 		}
 		return 1
-	}, Apply: func(int) { m.writer = true; vsched.TouchR(m.obj, vsched.KLock) }}
-	vsched.DoPoint(p.SetPC(vsched.CallerPC(2)))
+	}, Apply: func(int) {
+		if m.readers == 0 {
+			m.writer = true
+		} else {
+			m.pending = true
+			waited = true
+		}
+		vsched.TouchR(m.obj, vsched.KLock)
+	}}
+	vsched.DoPoint(p.SetPC(pc))
+	if !waited {
+		return
+	}
+	p2 := &vsched.Pend{Kind: vsched.KLock, Obj: m.obj, Variants: func() int {
+		if m.readers > 0 {
+			return 0
+		}
+		return 1
+	}, Apply: func(int) { m.writer = true; m.pending = false; vsched.TouchR(m.obj, vsched.KLock) }}
+	vsched.DoPoint(p2.SetPC(pc))
 }
 
 func (m *RWMutex) Unlock() {
@@ -164,7 +189,7 @@ func (m *RWMutex) RLock() {
 		return
 	}
 	p := &vsched.Pend{Kind: vsched.KRLock, Obj: m.obj, Variants: func() int {
-		if m.writer {
+		if m.writer || m.pending {
 			return 0
 		}
 		return 1
